@@ -116,7 +116,7 @@ impl Unknown {
         match (&self.0, &other.0) {
             (Inner::Infinite(infinite), _) if infinite.is_any() => Ok(()),
             (Inner::Infinite(infinite), Inner::Exact(rhs)) => {
-                Kind::from(*infinite).is_superset(rhs)
+                Kind::from(*infinite).is_superset(&rhs.clone().without_undefined())
             }
             (Inner::Exact(lhs), Inner::Exact(rhs)) => lhs
                 .clone()
